@@ -403,6 +403,106 @@ def mon_c09_down(sc, obs):
     return None
 
 
+@monitor("fol_c03_exact")
+def mon_c03_exact(sc, obs):
+    """one first-order connective, downward: every operand row ends as its old bounds met with the inverses of ALL the
+    (non-contradictory) groundings of the connective that read it -- neither looser (a grounding ignored) nor tighter"""
+    if whole_error(obs):
+        return None
+    tr = Trace(sc, obs)
+    kb = tr.kb
+    for st in tr.steps():
+        if st["error"] is not None or st["after"] is None:
+            return None
+        op = st["op"]
+        if not (op[0] == 2 and kb[op[1]][0] >= 2 and sx.q(kb[op[1]][4][0]) == 1):
+            continue
+        before, after = st["before"], st["after"]
+        i = op[1]
+        kd, ops, maps, nv, p = kb[i][:5]
+        if set(before[i]) != set(after[i]):
+            continue      # the step also created groundings: covered by the model correspondence
+        # must: inverses of the groundings whose operand rows all exist; may: also those whose missing operand rows the step
+        # creates with the world default (OPEN in these scenarios) -- whether it creates them is the join's business (model)
+        must = {(j, og): b for j in set(ops) for og, b in before[j].items()}
+        may = dict(must)
+        for g, y in sorted(before[i].items()):
+            raw = [before[j].get(tuple(g[s_] for s_ in m)) for j, m in zip(ops, maps)]
+            xs = [UNK if x is None else x for x in raw]
+            # a grounding with a crossed bound somewhere may be arrested or not (which ones are is not C03's business)
+            optional = any(x is None for x in raw) or y[0] > y[1] or any(x[0] > x[1] for x in xs)
+            presc = down_oracle(kd, p, y, xs)
+            for pos, (j, m) in enumerate(zip(ops, maps)):
+                if op[2] >= 0 and op[2] != pos:
+                    continue
+                key = (j, tuple(g[s_] for s_ in m))
+                for d in ([may] if optional else [may, must]):
+                    e = d.get(key, UNK)
+                    d[key] = (max(e[0], presc[pos][0]), min(e[1], presc[pos][1]))
+        for (j, og), hi_ in sorted(may.items()):
+            got = after[j].get(og)
+            if got is None:
+                continue
+            lo_ = must.get((j, og), UNK)
+            vals = [v for b_ in (lo_, hi_, got) for v in b_]
+            tol = F(0) if all(v.denominator <= 1024 for v in vals) else F(1, 2 ** 16)
+            was = before[j].get(og, UNK)
+            if got[0] < lo_[0] - tol or got[1] > lo_[1] + tol:
+                return (f"op #{st['n']} {op}: operand {j} row {og} (was {was}) is at least as tight as its old bounds met with the inverse of every non-contradictory grounding that reads it = {lo_}", f"{got} (looser)", None)
+            if got[0] > hi_[0] + tol or got[1] < hi_[1] - tol:
+                return (f"op #{st['n']} {op}: operand {j} row {og} (was {was}) is no tighter than its old bounds met with the inverse of every non-contradictory grounding that reads it = {hi_}", f"{got} (tighter)", None)
+    return None
+
+
+def gen_c03_fol(rng, n):
+    """one first-order connective over predicates with different variable tuples (join path), complete fact tables with
+    some crossed rows (arrested groundings), facts on the connective: upward then downward"""
+    out, meta = [], []
+    while len(out) < n:
+        kb, worlds = gen_fol.gen_fkb(rng, npreds=rng.choice([2, 2, 3]), nforms=1, kinds=["And", "Or", "Implies"], hetero=0.9, weighted=rng.random() < 0.3, maxar=2)
+        if len([o for o in kb if o[0] != 0]) != 1:
+            continue
+        roots = gen_fol.froots(rng, kb)
+        kb, worlds, roots = gen_fol.frestrict(kb, worlds, roots)
+        f = [i for i, o in enumerate(kb) if o[0] != 0][0]
+        if sx.q(kb[f][4][0]) != 1:
+            kb[f][4][0] = F(1)
+        worlds = [gen_fol.OPEN for _ in kb]
+        nconst = rng.choice([2, 2, 3])
+        pcross = rng.choice([0, 0.1, 0.25])
+
+        def fact():
+            b = gen_fol.rnd_fact(rng, 0.4)
+            if b[0] < b[1] and rng.random() < pcross:
+                b = [b[1], b[0]]
+            return b
+        data = []
+        for i, o in enumerate(kb):
+            if o[0] == 0:
+                d = [[list(g), fact()] for g in all_gnds(o[3], nconst) if rng.random() < 0.85]
+                if d:
+                    data.append([i, d])
+        d = [[list(g), fact()] for g in all_gnds(kb[f][3], nconst) if rng.random() < 0.4]
+        if d:
+            data.append([f, d])
+        ops = [[1, f], [2, f, -1]]
+        if rng.random() < 0.3:
+            ops += [[2, f, rng.randrange(len(kb[f][1]))]]
+        if rng.random() < 0.3:
+            ops += [[1, f], [2, f, -1]]
+        out.append([40, kb, roots, worlds, data, ops])
+        meta.append({"nobj": len(kb), "hetero": len(set(map(tuple, kb[f][2]))) > 1, "maxar": max(o[3] for o in kb), "crossed": pcross > 0})
+    return out, meta
+
+
+def c03_fol_part(ctx):
+    scs, meta = gen_c03_fol(ctx.rng("c03fol"), 300 if ctx.quick else 4000)
+    run_fol(ctx, "K6 one first-order connective: upward then downward over joined groundings", scs, ["fol_c03_exact", "fol_c09_down"])
+    d = fdist(meta)
+    d["with_crossed_rows"] = sum(1 for me in meta if me["crossed"])
+    ctx.cov["fol_distribution"] = d
+
+
 # ---------------------------------------------------------------- generic runner
 @monitor("fol_c18_loss")
 def mon_c18_loss(sc, obs):
